@@ -51,13 +51,13 @@ ASSUMPTIONS = [
 ]
 BOUND = {
     "quick": "dt: units D,h,m,s,ms,us; extract (11 extractors), to_string (13 formats), round trip (2-6 formats per unit): all vectors of "
-             "length 0..3 over NaT + 8 dates (D) or NaT + 8 dates with one time of day each + leap day at midnight + one midnight-plus-fraction "
-             "value (10-11 values); replace: all vectors of length 0..3 over a 6-value sub-alphabet x all subsets of <= 2 components x 2-3 "
-             "values per component x scalar / vector / mixed arguments; regex: all string vectors of length 0..3 over 6 strings x 8 patterns "
-             "x flags {0, I} x 7 functions x count/maxsplit {0,1} x 4 replacements; .str: every proxy attribute x 1-2 argument tuples",
-    "thorough": "as quick with the full calendar alphabet for all four dt parts (NaT + 8 dates x 2 times of day + 2 midnight-plus-fraction values, "
-                "17-19 values) at length 0..3, plus extract / to_string / round trip at length 4 over the quick alphabet; regex vectors of "
-                "length 0..4, compiled patterns, and length 0..3 over 8 strings (multi-line, upper case) x flags {0, I, M, I|M}",
+             "length 0..3 over the full calendar alphabet (NaT + 8 dates for D; NaT + 8 dates x 2 times of day, plus 2 midnight-plus-fraction "
+             "values for ms and us: 17-19 values); replace: all vectors of length 0..3 over a 6-value sub-alphabet x all subsets of <= 2 "
+             "components x 2-3 values per component x scalar / vector / mixed arguments; regex: all string vectors of length 0..3 over 6 strings "
+             "x 8 patterns x flags {0, I} x 7 functions x count/maxsplit {0,1} x 4 replacements; .str: every proxy attribute x 1-2 argument tuples",
+    "thorough": "as quick, with replace over the full calendar alphabet as well, plus extract / to_string / round trip at length 4 over a "
+                "10-11 value sub-alphabet; regex vectors of length 0..4, compiled patterns, and length 0..3 over 8 strings (multi-line, "
+                "upper case) x flags {0, I, M, I|M}; .str over the 8 strings",
 }
 EXPLANATION = ("Every evaluation is one real dataiter.dt / dataiter.regex / proxy call whose result is read back element by element "
                "(missing positions through Vector.is_na of the result) and compared with the same call on Python's datetime / re for that element. "
@@ -235,13 +235,9 @@ def shards(tier):
             for first in range(len(alpha)):
                 big.append({"part": part, "unit": unit, "alpha": which, "n": n, "first": first})
 
-    if tier == "quick":
-        for part in ("extract", "tostr", "roundtrip"):
-            dt_shards(part, "sub", 3)
-        dt_shards("replace", "mini", 3)
-    else:
-        for part in ("extract", "tostr", "roundtrip", "replace"):
-            dt_shards(part, "full", 3)
+    for part in ("extract", "tostr", "roundtrip"):
+        dt_shards(part, "full", 3)
+    dt_shards("replace", "mini" if tier == "quick" else "full", 3)
     for pattern in PATTERNS:
         for flags in (0, int(re.I)):
             small.append({"part": "re", "alpha": "base", "pattern": pattern, "flags": flags, "n": 3, "first": None})
